@@ -485,8 +485,9 @@ class cleanup_functools_wrapper(object):
                     delattr(self.func, attr)
                     if _verif.enabled:
                         _verif.emit('Del', obj=id(self.func), attr=attr)
-                except AttributeError:
-                    # absent, or not the object's own (found on its class):
+                except (AttributeError, TypeError):
+                    # absent, not the object's own (found on its class), or
+                    # the object is an immutable type (TypeError):
                     # nothing was taken away, nothing to put back
                     continue
                 self.saved_attrs[attr] = value
